@@ -347,17 +347,27 @@ class DistCase(Case):
         return out
 
 
+def as_array(v, rows):
+    """nested lists of scalars -> numpy array in the representation of the current mode"""
+    e = np.empty((len(rows), len(rows[0])), dtype=object)
+    for i, r in enumerate(rows):
+        for j, x in enumerate(r):
+            e[i, j] = x
+    return e.astype(np.int64) if v.mode == "real" else e
+
+
 class IPPOMaskRouting(Case):
     """IPPO.get_action with per-agent action masks in `infos`: the mask row that reaches the shared policy for batch row r is
     the mask of the (agent, env) whose observation is row r"""
     stubs = ("actor / critic = stubs recording their inputs and returning fresh symbols",)
     assumptions = ("observation labels pairwise distinct (rows are identified by their observation)",)
 
-    def __init__(self, A, E):
+    def __init__(self, A, E, arrays=False):
         from agilerl.algorithms.ippo import IPPO
-        self.A, self.E = A, E
+        self.A, self.E, self.arrays = A, E, arrays
         self.functions = (IPPO.get_action, IPPO.extract_action_masks, IPPO.preprocess_observation)
-        self.name = f"ippo-mask-routing-A{A}-E{E}"
+        self.name = f"ippo-mask-routing-A{A}-E{E}" + ("-ndarray-masks" if arrays else "")
+        self.exception_site = "IPPO.extract_action_masks/ndarray-masks" if arrays else None
         self.site = "IPPO.extract_action_masks/row-order"
         self.bounds = {"homogeneous_agents": A, "num_envs": E, "actions": 3, "symbolic": "observations, every mask entry"}
         self._agent = None
@@ -384,7 +394,8 @@ class IPPOMaskRouting(Case):
             for j in range(i):
                 v.assume(neg(eq(labels[i], labels[j])))
         masks = {a: [[v.flag(f"m_{a}_{e}_{k}") for k in range(nA)] for e in range(E)] for a in ids}
-        infos = {a: {"action_mask": masks[a]} for a in ids}
+        # masks as nested lists, or as the numpy arrays PettingZoo environments put into their infos
+        infos = {a: {"action_mask": (as_array(v, masks[a]) if self.arrays else masks[a])} for a in ids}
         seen = {}
 
         class Actor:
@@ -434,7 +445,7 @@ def cases(tier):
           DistCase("multibinary3", reeval=True),
           DistCase("box2", squash=True, history="recreate"), DistCase("box2", squash=True, history="clone"), DistCase("box2", history="latent-mutation"),
           DistCase("discrete3", masked=True, history="clone"),
-          IPPOMaskRouting(2, 2), IPPOMaskRouting(3, 2)]
+          IPPOMaskRouting(2, 2), IPPOMaskRouting(3, 2), IPPOMaskRouting(2, 2, arrays=True)]
     if tier == "thorough":
         cs += [DistCase("discrete3", B=3, masked=True), DistCase("multidiscrete23", B=3, masked=True), DistCase("box2", B=3, squash=True), DistCase("box1", squash=True)]
     return cs
